@@ -26,7 +26,7 @@ PROP = "C20"
 OPTIONS = {"project": "W", "src_dir": "./src", "output_dir": "./doc", "preprocess": False, "parallel": 0,
            "search": False, "graph": False}
 PREFIX = "zz"
-STATED = {"surplus_end_append", "surplus_end_tail", "copy_end_at_eof", "copy_trunc_stmt", "copy_extra_end", "copy_trunc_byte", "trunc_stmt", "trunc_byte", "splice", "lost_block", "byteflip", "undecodable", "empty", "whitespace",
+STATED = {"ends_in_predoc", "many_rejected", "surplus_end_append", "surplus_end_tail", "copy_end_at_eof", "copy_trunc_stmt", "copy_extra_end", "copy_trunc_byte", "trunc_stmt", "trunc_byte", "splice", "lost_block", "byteflip", "undecodable", "empty", "whitespace",
           "extra_end", "missing_end", "dup_contains", "misplaced_contains", "malformed", "binary", "long_line",
           "crlf_mix"}
 
@@ -98,6 +98,16 @@ def gen_case(seed, idx):
         pos = frng.choice(["first", "last", "first"])
         name = "src/%s_surplus%d.f90" % ("aaa" if pos == "first" else "zzzz", j)
         sets.append({"files": {name: dmg}, "kinds": {name: "surplus_end_%s@%s" % (how, pos)}, "must_reject": True})
+    # many rejected files in one run, under a low limit on open files: each rejected file must be let go of
+    if idx % 4 == 0:
+        many = {}
+        kinds = {}
+        for q in range(70):
+            name = "src/%s_many%03d.f90" % (frng.choice(["aaa", "mmm", "zzzz"]), q)
+            many[name] = frng.choice(["module %sq%d\nend module %sq%d\nend\n" % (PREFIX, q, PREFIX, q),
+                                      "contains\n subroutine %st%d()\n end subroutine\nend program %sx\n" % (PREFIX, q, PREFIX)])
+            kinds[name] = "many_rejected@any"
+        sets.append({"files": many, "kinds": kinds, "must_reject": True, "rlimit_nofile": 48})
     # I/O faults on an otherwise valid extra file
     io = []
     for j in range(2):
@@ -155,7 +165,8 @@ def evaluate(case, seed, workdir, sets=None, io=None, full=False):
     for j, s in enumerate(sets):
         nbytes = sum(size_of(c) for c in s["files"].values())
         variants.append({"driver": "c20_project", "fs_patch": {"p/" + k: v for k, v in s["files"].items()},
-                         "step_budget": 50 * steps0 + 2000 * nbytes, "dump_files": valid})
+                         "step_budget": 50 * steps0 + 2000 * nbytes + 20000 * len(s["files"]), "dump_files": valid,
+                         "rlimit_nofile": s.get("rlimit_nofile")})
         meta.append(("set", j, s))
     for j, f in enumerate(io):
         variants.append({"driver": "c20_project", "fs_patch": {"p/" + f["file"]: f["text"]},
